@@ -472,7 +472,12 @@ def shared_weights(ctx):
 
 RULES["R11.2"] += " | shared-weights: the coupled groups / cloned repetitions of Feedback::create (R10.1 re-run here)"
 
+RULES["R11.3"] += " | entries-stay-in-place (who-may-permute): over every function of the property's modules, no Vec/slice operation that moves entries to other positions (reverse, swap, rotate, sort .., mem::swap of two entries) outside the table of sites confirmed on the pinned tree (common.PERMUTING_SITES)"
+
+
 def run(ctx):
+    from .common import no_permuting_ops
+    ctx.guard("R11.3", "entries-stay-in-place", no_permuting_ops, ctx, "R11.3", "feedback", {"src/feedback.rs"}, 8)
     ctx.guard("R11.2", "shared-weights", shared_weights, ctx)
     r = ctx.guard("R11.1", "dispatch", r1, ctx)
     ctx.guard("R11.1", "primitives", primitives, ctx, "R11.1")
